@@ -50,7 +50,7 @@ def abs(var, name=None, latex_name=None):
     if name is None:
         name = "abs_" + var.name
     if latex_name is None:
-        var_latex_name = var.get("latex_name", var.name)
+        var_latex_name = var.var_context.get("latex_name", var.name)
         latex_name = '|' + var_latex_name + '|'
     getter = lambda val: abs_(var.getter(val))
     # getter = lambda val: __builtins__["abs"](var.getter(val))
